@@ -1,5 +1,5 @@
 (* Props/C02.v -- C02: composition law.  Property theorems only. *)
-From AT Require Import Num Vec Aff PTree.
+From AT Require Import Num Vec Aff PTree Cells Abs ArenaEval ArenaCompose.
 
 (* f.compose(g) without pruning: h(x) is defined exactly when f(x) and g(f(x)) are, and then h(x) = g(f(x));
    every branching factor (children lists of any length), partial operands (U), boundary inputs. *)
@@ -21,6 +21,43 @@ Theorem C02_compose_wf : forall n m k f g, wf n f -> outs m f -> wf m g -> outs 
   wf n (compose f g) /\ outs k (compose f g).
 Proof. intros n m k f g Hf Ho Hg Hk. split; [eapply wf_compose; eauto | apply outs_compose; auto]. Qed.
 
+(* ---- arena level ----
+   evaluate() / find_terminal as coded (loop over the slab arena) computes eval / route / term of the inductive tree
+   the arena abstracts to: the link between what the runner decides about abs(dump) and what the code computes *)
+Theorem C02_evaluate_is_eval : forall fuel a i t x, abs_at fuel a i = Some t -> fits t ->
+  evaluate_arena fuel a i x = Some (eval t x).
+Proof. exact evaluate_arena_spec. Qed.
+Theorem C02_find_terminal_is_route : forall fuel a i t x, abs_at fuel a i = Some t -> fits t ->
+  match find_terminal_arena fuel a i x with
+  | FOk (Some (ti, ls)) =>
+      route t x = Some ls /\ exists c, aget a ti = Some c /\ c_leaf c = true /\ term t x = Some (ac_aff (c_val c))
+  | FOk None => route t x = None /\ term t x = None
+  | FPanic => False
+  end.
+Proof. exact find_terminal_arena_spec. Qed.
+
+(* the frame clause: generic_composition_inplace without pruning, as a sequence of update_node / add_child_node on
+   the slab arena with ANY allocator that hands out unoccupied keys: every node of the receiver survives under its
+   index, with its parent, its children under their labels, its cached state and -- if it is a decision -- its value
+   (extends); only the terminal being processed and new cells are written (untouched).  The argument tree is borrowed
+   immutably by the code (&AffTree): it cannot change. *)
+Theorem C02_frame : forall alloc K s L a a', fresh_alloc alloc -> arena_compose alloc K s L a = Some a' -> extends a a'.
+Proof. exact arena_compose_extends. Qed.
+Theorem C02_frame_one_terminal : forall alloc K s L a i a', fresh_alloc alloc ->
+  arena_compose_at alloc K s L a i = Some a' -> untouched a a' i.
+Proof. exact arena_compose_at_untouched. Qed.
+(* the arena-level run on an arena with a freed slot: Ok, abstracts to the lifted tree, indices / states as claimed *)
+Example C02_frame_nonvacuous :
+  fresh_alloc next_key /\
+  option_map (fun a' => (abs_at 5 a' 0%nat, map (fun o => option_map (fun c => (c_parent c, c_children c, c_leaf c, ac_state (c_val c))) o) a'))
+             (arena_compose next_key 2%nat comp_schema exa_L exa_arena)
+  = Some (Some (lift comp_schema (D (exa_f 1 0) [U; T (exa_f (1 + 1) 0)]) exa_L),
+          [ Some (None, [None; Some 2%nat], false, Indet);
+            None;
+            Some (Some 0%nat, [Some 3%nat; None], false, Feas);
+            Some (Some 2%nat, [None; None], true, Indet) ]).
+Proof. exact (conj next_key_fresh exa_run). Qed.
+
 (* non-vacuity: a partial two-level f and a decision g satisfy the hypotheses, and the law computes *)
 Definition ex_f : ptree :=
   D {| a_in := 1; a_mat := [[1]]; a_bias := [0] |}
@@ -40,3 +77,8 @@ Print Assumptions C02_compose_eval.
 Print Assumptions C02_apply_func_eval.
 Print Assumptions C02_apply_func_is_compose.
 Print Assumptions C02_compose_wf.
+Print Assumptions C02_evaluate_is_eval.
+Print Assumptions C02_find_terminal_is_route.
+Print Assumptions C02_frame.
+Print Assumptions C02_frame_one_terminal.
+Print Assumptions C02_frame_nonvacuous.
